@@ -215,6 +215,10 @@ class Checker(object):
         if kind == 'symbol_redefinition':
             mgr.Symbol('c15_sym', T.INT)
             return outcome(lambda: mgr.Symbol('c15_sym', T.BOOL))
+        if kind == 'symbol_bad_type':
+            bad_t = rng.choice(['Int', None, 3, T.INT.__class__, (T.INT,)])
+            nm = rng.choice(['c15new', 'c15fn', 'c15c'])
+            return outcome(lambda: mgr.Symbol(nm, bad_t))
         if kind == 'fresh_symbol_bad_type':
             return outcome(lambda: mgr.FreshSymbol('not a type'))
         if kind == 'bad_constant':
@@ -279,7 +283,7 @@ class Checker(object):
 
     KINDS = ['ill_typed_substitution', 'ill_typed_substitution_mss',
              'ill_typed_construction', 'symbol_redefinition',
-             'fresh_symbol_bad_type', 'bad_constant', 'hr_undefined_symbol',
+             'fresh_symbol_bad_type', 'symbol_bad_type', 'bad_constant', 'hr_undefined_symbol',
              'hr_syntax_error', 'smtlib_malformed', 'smtlib_type_error',
              'smtlib_undeclared', 'smtlib_malformed_declaration',
              'smtlib_fails_after_declarations',
@@ -374,6 +378,8 @@ class Checker(object):
         elif 'substitution' in kind:
             plan.insert(0, ('substitute', 0))
             plan.insert(1, ('substitute', 1))
+        elif kind == 'symbol_bad_type':
+            plan.insert(0, ('declare_new_names', 0))
         elif kind.startswith('hr_'):
             plan.insert(0, ('hr_reparse', 0))
         elif kind.startswith('smtlib_'):
